@@ -313,7 +313,7 @@ if validate_rfc3339:
         return is_datetime("1970-01-01T" + instance)
 
 
-@_checks_drafts(name="regex", raises=re.error)
+@_checks_drafts(name="regex", raises=(re.error, OverflowError))
 def is_regex(instance):
     if not isinstance(instance, str):
         return True
@@ -327,11 +327,16 @@ else:
         return datetime.datetime.strptime(instance, "%Y-%m-%d")
 
 
+_RE_DATE = re.compile(r"^\d{4}-\d{2}-\d{2}$", re.ASCII)
+
+
 @_checks_drafts(draft3="date", draft7="date", raises=ValueError)
 def is_date(instance):
     if not isinstance(instance, str):
         return True
-    return _is_date(instance)
+    # ``fromisoformat`` also accepts other ISO 8601 spellings (``20200101``,
+    # ``2020-W01-1``) on newer Pythons, RFC 3339 full-date does not.
+    return bool(_RE_DATE.fullmatch(instance) and _is_date(instance))
 
 
 @_checks_drafts(draft3="time", raises=ValueError)
